@@ -224,16 +224,31 @@ def wf_op(t, o):
 
 
 # ------------------------------------------------------------ running a case
-def real(e):
-    """The Python entity id the integer e of the case stands for."""
+def real(e, idmode='int'):
+    """The Python entity id the integer e of the case stands for.
+
+    e >= 0: the e-th value of the world's id generator family (mode 'int':
+    count(1) and the int itself; 'str': a factory yielding 'g1', 'g2', ...
+    and 'g<e>'; 'offset': count(5) and e + 4), so that the model's automatic
+    ids count(1) are in bijection with the implementation's.  e < 0: some
+    other hashable (tuple, string, frozenset, negative int, nested tuple)."""
     if e >= 0:
+        return 'g%d' % e if idmode == 'str' else e + 4 if idmode == 'offset' else e
+    m = (-e) % 5
+    if m == 0:
+        return ('t', e)
+    if m == 1:
+        return 's%d' % e
+    if m == 2:
+        return frozenset((e, 's'))
+    if m == 3:
         return e
-    return 's%d' % e if e % 2 else ('t', e)
+    return (e, ('n', None))
 
 
 def snapshot(ncls, pool):
     qs = []
-    for T in range(ncls):
+    for T in range(ncls + 1):       # ncls = a class outside the hierarchy
         qs.append(['get', T])
         qs.append(['gp', T])
     qs.append(['ents'])
@@ -244,7 +259,7 @@ def snapshot(ncls, pool):
         seen.append(e)
         qs.append(['gcs', e])
         qs.append(['ex', e])
-        for T in range(ncls):
+        for T in range(ncls + 1):
             qs.append(['has', e, T])
             qs.append(['gc', e, T])
     return qs
@@ -262,7 +277,7 @@ def _shape_ok(o, n):
         if k == 'add':
             return isint(o[1]) and cl(o[2]) and isint(o[3])
         if k == 'remove':
-            return isint(o[1]) and cl(o[2])
+            return isint(o[1]) and (cl(o[2]) or o[2] == n)
         if k == 'delete':
             return isint(o[1]) and isinstance(o[2], bool)
         if k in ('process', 'clear', 'probe'):
@@ -272,7 +287,7 @@ def _shape_ok(o, n):
         if k == 'addproc':
             return cl(o[1]) and isint(o[2])
         if k == 'rmproc':
-            return cl(o[1])
+            return cl(o[1]) or o[1] == n
     except Exception:
         pass
     return False
@@ -302,15 +317,15 @@ def run(case):
         try:
             for _ in range(r.randint(1, 3)):
                 x = r.random()
-                T = r.randrange(n)
-                e = real(r.choice(list(case['pool']) + NEVER))
+                T = r.randrange(len(cls)) if cls and r.random() < 0.93 else n
+                e = real_(r.choice(list(case['pool']) + NEVER))
                 if x < 0.55:
                     cb['types'].append(T)
-                    world.get(cls[T])
+                    world.get(C(T))
                 elif x < 0.63:
-                    world.get_component(e, cls[T], cb)
+                    world.get_component(e, C(T), cb)
                 elif x < 0.71:
-                    world.has_component(e, cls[T])
+                    world.has_component(e, C(T))
                 elif x < 0.79:
                     world.get_components(e)
                 elif x < 0.86:
@@ -320,7 +335,7 @@ def run(case):
                 elif x < 0.96:
                     world.processors
                 else:
-                    world.get_processor(pcls[T])
+                    world.get_processor(PC(T))
         except Exception:
             cb['err'] = True
 
@@ -341,15 +356,13 @@ def run(case):
     events = {'both': ('on_add', 'on_remove'), 'addonly': ('on_add',),
               'remonly': ('on_remove',), 'other': ('probe',)}
 
-    def make(prefix, bases_root, flavours):
-        out = []
-        for i, bs in enumerate(H):
-            c = type('%s%d' % (prefix, i), tuple(out[x] for x in bs) or (bases_root,),
-                     namespace(flavours[i]))
-            if flavours[i] in events:
-                desper.event_handler(*events[flavours[i]])(c)
-            out.append(c)
-        return out
+    def make_one(prefix, bases_root, flavours, out):
+        i = len(out)
+        c = type('%s%d' % (prefix, i), tuple(out[x] for x in H[i]) or (bases_root,),
+                 namespace(flavours[i]))
+        if flavours[i] in events:
+            desper.event_handler(*events[flavours[i]])(c)
+        out.append(c)
 
     # Value flavours of the instances.  The model never looks at a component
     # or processor as a value, so the doubles are as hostile as Python allows:
@@ -386,9 +399,42 @@ def run(case):
     pns = value_ns()
     pns['process'] = lambda self, dt=1: None
     proot = type('PRoot', (desper.Processor,), pns)
-    default = object()          # get_component's default: never a component
-    cls = make('K', root, kinds)
-    pcls = make('P', proot, pkinds)
+    class _FalsyDefault:
+        __bool__ = lambda self: False
+    # get_component's default: None, a sentinel, falsy values; never a component
+    defaults = [None, object(), object(), 0, '', _FalsyDefault()]
+    dflt_rng = random.Random(qseed * 23 + 11)
+    # Classes from index `lazy` on are defined only when an operation first
+    # needs them (subclasses appearing after queries on their ancestors).
+    cls, pcls = [], []
+    alien = type('Alien', (), {})                       # outside the hierarchy
+    palien = type('PAlien', (desper.Processor,), {'process': lambda self, dt=1: None})
+
+    def ensure(u):
+        while len(cls) <= u:
+            make_one('K', root, kinds, cls)
+            make_one('P', proot, pkinds, pcls)
+
+    def C(T):
+        return alien if T == n else cls[T]
+
+    def PC(T):
+        return palien if T == n else pcls[T]
+
+    lazy = case.get('lazy')
+    if n:
+        ensure((lazy - 1) if isinstance(lazy, int) and 1 <= lazy < n else n - 1)
+
+    idmode = case.get('idmode', 'int')
+    if idmode not in ('int', 'str', 'offset'):
+        idmode = 'int'
+    alias = random.Random(qseed * 17 + 3)
+
+    def real_(e):
+        # True == 1 and False == 0 are the SAME entity ids
+        if idmode == 'int' and e in (0, 1) and alias.random() < 0.3:
+            return bool(e)
+        return real(e, idmode)
 
     ops = case['ops']
     pool = case['pool']
@@ -400,8 +446,14 @@ def run(case):
             back[real(e)] = e
 
     def ent(x):
-        if isinstance(x, int) and not isinstance(x, bool):
-            return x if x >= 0 else UNKNOWN_ENT
+        if isinstance(x, bool):
+            x = int(x)
+        if isinstance(x, int) and x >= 0:
+            if idmode == 'int':
+                return x
+            return x - 4 if idmode == 'offset' and x >= 4 else UNKNOWN_ENT
+        if idmode == 'str' and isinstance(x, str) and x[:1] == 'g' and x[1:].isdigit():
+            return int(x[1:])
         try:
             return back.get(x, UNKNOWN_ENT)
         except TypeError:
@@ -430,7 +482,15 @@ def run(case):
     def pid(x):
         return None if x is None else proc_id.get(id(x), UNKNOWN_OBJ)
 
-    w = desper.World()
+    from itertools import count
+    if idmode == 'str':
+        w = desper.World(lambda: ('g%d' % i for i in count(1)))
+    elif idmode == 'offset':
+        w = desper.World(lambda: count(5))
+    elif alias.random() < 0.3:
+        w = desper.World(id_generator_factory=lambda: count(1))
+    else:
+        w = desper.World()
     cb['world'] = w
     cb['ready'] = True
 
@@ -442,15 +502,15 @@ def run(case):
                 if o[1] is None:
                     rid = w.create_entity(*objs)
                 else:
-                    rid = w.create_entity(*objs, entity_id=real(o[1]))
+                    rid = w.create_entity(*objs, entity_id=real_(o[1]))
                 rid = ent(rid)
                 return ['err', 0] if rid == UNKNOWN_ENT else ['id', rid]
             if k == 'add':
-                w.add_component(real(o[1]), cobj(o[2], o[3]))
+                w.add_component(real_(o[1]), cobj(o[2], o[3]))
             elif k == 'remove':
-                return ['obj', cid(w.remove_component(real(o[1]), cls[o[2]]))]
+                return ['obj', cid(w.remove_component(real_(o[1]), C(o[2])))]
             elif k == 'delete':
-                w.delete_entity(real(o[1]), immediate=o[2])
+                w.delete_entity(real_(o[1]), immediate=o[2])
             elif k == 'process':
                 w.process(1)
             elif k == 'clear':
@@ -462,7 +522,7 @@ def run(case):
             elif k == 'addproc':
                 w.add_processor(pobj(o[1], o[2]))
             elif k == 'rmproc':
-                return ['obj', pid(w.remove_processor(pcls[o[1]]))]
+                return ['obj', pid(w.remove_processor(PC(o[1])))]
             return ['unit']
         except KeyError:
             return ['err', 1]
@@ -475,22 +535,26 @@ def run(case):
         k = q[0]
         try:
             if k == 'get':
-                return ['get', q[1], [[ent(e), cid(c)] for e, c in w.get(cls[q[1]])]]
+                return ['get', q[1], [[ent(e), cid(c)] for e, c in w.get(C(q[1]))]]
             if k == 'gp':
-                return ['gp', q[1], pid(w.get_processor(pcls[q[1]]))]
+                return ['gp', q[1], pid(w.get_processor(PC(q[1])))]
             if k == 'ents':
                 return ['ents', [ent(e) for e in w.entities]]
             if k == 'gcs':
-                return ['gcs', q[1], [cid(c) for c in w.get_components(real(q[1]))]]
+                return ['gcs', q[1], [cid(c) for c in w.get_components(real_(q[1]))]]
             if k == 'ex':
-                r = w.entity_exists(real(q[1]))
+                r = w.entity_exists(real_(q[1]))
                 return ['ex', q[1], r] if isinstance(r, bool) else ['err']
             if k == 'has':
-                r = w.has_component(real(q[1]), cls[q[2]])
+                r = w.has_component(real_(q[1]), C(q[2]))
                 return ['has', q[1], q[2], r] if isinstance(r, bool) else ['err']
             if k == 'gc':
-                r = w.get_component(real(q[1]), cls[q[2]], default)
-                return ['gc', q[1], q[2], None if r is default else
+                dflt = dflt_rng.choice(defaults)
+                if dflt is None and dflt_rng.random() < 0.5:
+                    r = w.get_component(real_(q[1]), C(q[2]))
+                else:
+                    r = w.get_component(real_(q[1]), C(q[2]), dflt)
+                return ['gc', q[1], q[2], None if r is dflt else
                         UNKNOWN_OBJ if r is None else cid(r)]
         except Exception:
             pass
@@ -513,27 +577,61 @@ def run(case):
     anc = ancestors(H)
     spec = spec_init()
     obs = []
+    def qtype(q):
+        return q[1] if q[0] in ('get', 'gp') else q[2] if q[0] in ('has', 'gc') else None
+
+    def askable(q):
+        """Queries by a class that is not defined yet cannot be asked."""
+        T = qtype(q)
+        return T is None or T == n or T < len(cls)
+
+    def needed(o):
+        ts = ([u for u, _ in o[2]] if o[0] == 'create' else
+              [o[2]] if o[0] in ('add', 'remove') else
+              [o[1]] if o[0] in ('addproc', 'rmproc') else [])
+        ts = [t for t in ts if t < n]
+        return max(ts) if ts else -1
+
     if not ops:
+        ensure(n - 1) if n else None
         return {'obs': [{'res': ['unit'], 'skip': True, 'q': [ask(q) for q in full]}]}
+    late = 0
     for i, o in enumerate(ops):
         skip = (not _shape_ok(o, n) or not consistent(o)
                 or (spec is not None and not wf_op(spec, o)))
+        primed = []
+        if not skip and needed(o) >= len(cls):
+            # the classes about to be defined: first query their existing
+            # ancestors (state after the previous operation) ...
+            new = range(len(cls), needed(o) + 1)
+            primed = sorted({t for u in new for t in anc[u] if t < len(cls)})
+            before = [ask([k, T]) for T in primed for k in ('get', 'gp')]
+            if obs:
+                obs[-1]['q'] += before
+            late += len(new)
+            ensure(needed(o))
         cb['err'], cb['types'] = False, []
         res = ['unit'] if skip else execute(o)
         cb_err, cb_types = cb['err'], sorted(set(cb['types']))
         if spec is not None:
             spec = spec_step(anc, spec, ['nop'] if skip else o, res)
-        if every or i == len(ops) - 1:
-            qs = full
+        last = i == len(ops) - 1
+        if last:
+            ensure(n - 1) if n else None
+        if every or last:
+            qs = [q for q in full if askable(q)]
         else:
             qs = random.Random(qseed * 1000 + i).sample(full, min(nq, len(full)))
+            qs = [q for q in qs if askable(q)]
         answers = [ask(q) for q in qs]
-        if not (every or i == len(ops) - 1):
-            answers += [ask(['get', T]) for T in cb_types[:4]]
+        if not (every or last):
+            # ... and again now that an instance may be attached
+            answers += [ask(['get', T]) for T in sorted(set(cb_types[:4]) | set(primed))]
+            answers += [ask(['gp', T]) for T in primed]
         if cb_err:
             answers.append(['err'])
         obs.append({'res': res, 'skip': skip, 'q': answers})
-    return {'obs': obs, 'callbacks': cb['calls']}
+    return {'obs': obs, 'callbacks': cb['calls'], 'late_classes': late}
 
 
 # ------------------------------------------------------------------ encoding
@@ -905,7 +1003,7 @@ def gen_case(rng, P, tier):
     kinds = [rng.choices(KINDS, P['kind_w'])[0] for _ in range(n)]
     pkinds = [rng.choices(KINDS, P['kind_w'])[0] for _ in range(n)]
     npool = rng.randint(*P['npool'])
-    cand = [1, 1, 2, 2, 3, 3, 4, 5, 6, 7, 8, 0, -1, -2, -3, -4]
+    cand = [1, 1, 2, 2, 3, 3, 4, 5, 6, 7, 8, 0, -1, -2, -3, -4, -5]
     pool = []
     while len(pool) < npool:
         e = rng.choice(cand)
@@ -919,9 +1017,15 @@ def gen_case(rng, P, tier):
             break
         if e not in pool:
             pool.append(e)
+    # a class outside the hierarchy as the query type of a few removals
+    for o in ops:
+        if o[0] in ('remove', 'rmproc') and rng.random() < 0.04:
+            o[2 if o[0] == 'remove' else 1] = n
     case = dict(H=H, kinds=kinds, pkinds=pkinds, pool=pool, ops=ops,
                 qseed=rng.randrange(1, 10 ** 6), nq=6,
-                full=(tier == 'thorough' and len(ops) <= P['full_max_ops']))
+                full=(tier == 'thorough' and len(ops) <= P['full_max_ops']),
+                lazy=(rng.randint(1, n - 1) if n >= 2 and rng.random() < 0.5 else None),
+                idmode=rng.choices(['int', 'str', 'offset'], [60, 20, 20])[0])
     return case
 
 
@@ -1121,8 +1225,11 @@ def stats(cases, traces):
     hist, results, kinds, shapes = {}, {}, {}, {}
     skipped = multi = diamond = anc_removed = replacements = future = skips = 0
     same_again = total = full_cases = nqueries = 0
-    callbacks = 0
+    callbacks = late = 0
+    idmodes = {}
     for case, tr in zip(cases, traces):
+        late += tr.get('late_classes', 0) if isinstance(tr, dict) else 0
+        idmodes[case.get('idmode', 'int')] = idmodes.get(case.get('idmode', 'int'), 0) + 1
         H = case['H']
         callbacks += tr.get('callbacks', 0) if isinstance(tr, dict) else 0
         shapes[len(H)] = shapes.get(len(H), 0) + 1
@@ -1180,7 +1287,8 @@ def stats(cases, traces):
                 att, pend = {}, set()
                 nxt = 1
             pend &= {k[0] for k in att}
-    return dict(cases=len(cases), reentrant_callbacks=callbacks, entries=total, queries=nqueries, operations=hist,
+    return dict(cases=len(cases), reentrant_callbacks=callbacks, classes_defined_late=late,
+                id_modes=idmodes, entries=total, queries=nqueries, operations=hist,
                 skipped_not_wellformed=skipped, results=results,
                 classes_per_case=shapes, cases_with_multibase_class=multi,
                 cases_with_diamond=diamond, handler_kinds=kinds,
